@@ -11,6 +11,7 @@
 package main
 
 import (
+	"bytes"
 	"flag"
 	"fmt"
 	"os"
@@ -21,6 +22,7 @@ import (
 	"sort"
 	"strings"
 	"sync/atomic"
+	"syscall"
 	"time"
 
 	xast "github.com/goplus/xgo/ast"
@@ -101,13 +103,27 @@ var entries = []entry{
 // ---- the oracle ------------------------------------------------------------------
 
 type running struct {
-	start time.Time
-	entry string
-	src   []byte
+	start    time.Time
+	startCPU time.Duration // CPU time of the process when the case started
+	entry    string
+	src      []byte
 }
 
 var current atomic.Value // *running or nil
-var timeout = 3 * time.Second
+
+// Hang detection is by CPU time, not wall-clock time (the machine may be heavily loaded): a parse
+// that has burnt cpuBudget of process CPU time is a hang; one that merely has not finished within
+// wallCap without using the budget is inconclusive (counted, never a violation).
+const cpuBudget = 20 * time.Second
+const wallCap = 10 * time.Minute
+
+func processCPU() time.Duration {
+	var ru syscall.Rusage
+	if syscall.Getrusage(syscall.RUSAGE_SELF, &ru) != nil {
+		return 0
+	}
+	return time.Duration(ru.Utime.Nano() + ru.Stime.Nano())
+}
 
 func caseLine(entry string, src []byte) string { return "parse\t" + entry + "\t" + vh.Hex(src) }
 
@@ -165,7 +181,7 @@ func badKind(tree interface{}) string {
 
 // check runs one entry on one input and evaluates the property; returns a short outcome.
 func check(e entry, src []byte) (outcome string) {
-	current.Store(&running{time.Now(), e.name, src})
+	current.Store(&running{time.Now(), processCPU(), e.name, src})
 	defer current.Store((*running)(nil))
 	var tree interface{}
 	var err error
@@ -221,10 +237,20 @@ func check(e entry, src []byte) (outcome string) {
 
 func watchdog() {
 	for {
-		time.Sleep(100 * time.Millisecond)
-		if r, _ := current.Load().(*running); r != nil && time.Since(r.start) > timeout {
-			oracle("hang-"+strings.SplitN(r.entry, ":", 2)[0], r.entry, r.src, fmt.Sprintf("no result after %v", timeout))
+		time.Sleep(250 * time.Millisecond)
+		r, _ := current.Load().(*running)
+		if r == nil {
+			continue
+		}
+		if used := processCPU() - r.startCPU; used > cpuBudget {
+			oracle("hang-"+strings.SplitN(r.entry, ":", 2)[0], r.entry, r.src, fmt.Sprintf("no result after %v of CPU time", cpuBudget))
 			out.Count("aborted_after_hang")
+			out.Close()
+			os.Exit(0)
+		}
+		if time.Since(r.start) > wallCap {
+			// starved, not hung: give up on the rest of the run without a verdict
+			out.Count("inconclusive_wall_cap_in_process")
 			out.Close()
 			os.Exit(0)
 		}
@@ -565,12 +591,38 @@ func childDeep(kind string, n int) {
 	}
 }
 
-func runDeep(n int, budget time.Duration) {
+// childCPU reads utime+stime of a live process from /proc (clock ticks of 10 ms).
+func childCPU(pid int) time.Duration {
+	b, err := os.ReadFile(fmt.Sprintf("/proc/%d/stat", pid))
+	if err != nil {
+		return 0
+	}
+	st := string(b)
+	if i := strings.LastIndexByte(st, ')'); i >= 0 { // skip "pid (comm)"
+		st = st[i+1:]
+	}
+	f := strings.Fields(st)
+	if len(f) < 13 {
+		return 0
+	}
+	var ut, stt int64
+	fmt.Sscan(f[11], &ut)
+	fmt.Sscan(f[12], &stt)
+	return time.Duration(ut+stt) * 10 * time.Millisecond
+}
+
+// runDeep parses deep-nesting inputs in child processes; budget is CPU time per child
+// (the wall-clock cap is 10x the budget; hitting it without using the CPU budget is
+// inconclusive, not a hang).
+func runDeep(n int, budget time.Duration, only []string) {
 	kinds := make([]string, 0)
 	for k := range deepInputs(1) {
 		kinds = append(kinds, k)
 	}
 	sort.Strings(kinds)
+	if only != nil {
+		kinds = only
+	}
 	for _, k := range kinds {
 		depth := n
 		if k == "ifelse" || k == "funclit" || k == "blocks" {
@@ -579,18 +631,44 @@ func runDeep(n int, budget time.Duration) {
 			depth = n / 20
 		}
 		cmd := exec.Command(os.Args[0], "-deepchild", k, "-deepn", fmt.Sprint(depth))
-		done := make(chan struct{})
-		var ob []byte
-		var err error
-		go func() { ob, err = cmd.CombinedOutput(); close(done) }()
-		select {
-		case <-done:
-		case <-time.After(budget):
-			cmd.Process.Kill()
-			<-done
-			oracle("hang-deep-"+k, "deep:"+k, []byte(fmt.Sprintf("%s x %d", k, depth)), "no result within "+budget.String())
+		var buf bytes.Buffer
+		cmd.Stdout, cmd.Stderr = &buf, &buf
+		if err := cmd.Start(); err != nil {
+			out.Count("deep_inconclusive_start_failed")
 			continue
 		}
+		done := make(chan error, 1)
+		go func() { done <- cmd.Wait() }()
+		var err error
+		verdict := ""
+		start := time.Now()
+	wait:
+		for {
+			select {
+			case err = <-done:
+				break wait
+			case <-time.After(300 * time.Millisecond):
+				if cpu := childCPU(cmd.Process.Pid); cpu > budget {
+					verdict = "hang"
+				} else if time.Since(start) > 10*budget {
+					verdict = "inconclusive"
+				}
+				if verdict != "" {
+					cmd.Process.Kill()
+					<-done
+					break wait
+				}
+			}
+		}
+		if verdict == "hang" {
+			oracle("hang-deep-"+k, "deep:"+k, []byte(fmt.Sprintf("%s x %d", k, depth)), "no result within "+budget.String()+" of CPU time")
+			continue
+		}
+		if verdict == "inconclusive" {
+			out.Count("deep_inconclusive_wall_cap_" + k) // starved by machine load: no verdict
+			continue
+		}
+		ob := buf.Bytes()
 		s := string(ob)
 		switch {
 		case strings.Contains(s, "deep-done"):
@@ -650,7 +728,8 @@ func main() {
 				var k string
 				var n int
 				fmt.Sscanf(string(src), "%s x %d", &k, &n)
-				runDeep(n, 60*time.Second)
+				runDeep(n*20, 60*time.Second, []string{k}) // runDeep divides scope-opening shapes by 20 itself
+				_ = k
 			}
 		case fs[0] == "adv" && len(fs) >= 4:
 			src, _ := vh.UnHex(fs[len(fs)-1])
@@ -757,8 +836,8 @@ func main() {
 	}
 	// (f) deep nesting, child processes
 	if thorough {
-		runDeep(3000000, 120*time.Second)
+		runDeep(3000000, 60*time.Second, nil)
 	} else {
-		runDeep(30000, 20*time.Second)
+		runDeep(20000, 20*time.Second, []string{"parens", "unary", "blocks", "selector"})
 	}
 }
